@@ -59,6 +59,60 @@ def parse_policy(policy):
     return result
 
 
+def _check_policy_structure(name, object_policy, policy_sections):
+    """
+    Verify that a policy and its sections are JSON objects all the way down
+    to the individual operation permissions.
+    """
+    def check_section(section, label):
+        if not isinstance(section, dict):
+            raise ValueError(
+                "Policy '{}' contains a {} that is not a JSON "
+                "object.".format(name, label)
+            )
+        for object_type, operation_policies in six.iteritems(section):
+            if not isinstance(operation_policies, dict):
+                raise ValueError(
+                    "Policy '{}' contains a {} whose '{}' entry is not a "
+                    "JSON object.".format(name, label, object_type)
+                )
+
+    if not isinstance(object_policy, dict):
+        raise ValueError(
+            "Policy '{}' is not a JSON object.".format(name)
+        )
+
+    sections = set(six.iterkeys(object_policy))
+    if len(sections) > 0 and sections <= policy_sections:
+        preset = object_policy.get('preset')
+        if preset:
+            check_section(preset, "'preset' section")
+        elif preset is not None and not isinstance(preset, dict):
+            raise ValueError(
+                "Policy '{}' contains a 'preset' section that is not a JSON "
+                "object.".format(name)
+            )
+        groups = object_policy.get('groups')
+        if groups:
+            if not isinstance(groups, dict):
+                raise ValueError(
+                    "Policy '{}' contains a 'groups' section that is not a "
+                    "JSON object.".format(name)
+                )
+            for group_name, group_policy in six.iteritems(groups):
+                check_section(
+                    group_policy,
+                    "group section '{}'".format(group_name)
+                )
+        elif groups is not None and not isinstance(groups, dict):
+            raise ValueError(
+                "Policy '{}' contains a 'groups' section that is not a JSON "
+                "object.".format(name)
+            )
+    elif len(sections - policy_sections) == len(sections):
+        check_section(object_policy, "policy")
+
+
 def read_policy_from_file(path):
     policy_blob = {}
 
@@ -75,7 +129,15 @@ def read_policy_from_file(path):
     object_types = set([t.name for t in enums.ObjectType])
     result = {}
 
+    if not isinstance(policy_blob, dict):
+        raise ValueError(
+            "The policy file '{}' does not contain a JSON object mapping "
+            "policy names to policies.".format(path)
+        )
+
     for name, object_policy in policy_blob.items():
+        _check_policy_structure(name, object_policy, policy_sections)
+
         if len(object_policy.keys()) == 0:
             continue
 
@@ -103,6 +165,11 @@ def read_policy_from_file(path):
             result[name] = {'preset': policy}
         else:
             invalid_sections = sections - policy_sections - object_types
+            if len(invalid_sections) == 0:
+                raise ValueError(
+                    "Policy '{}' mixes the 'preset'/'groups' sections with "
+                    "object type sections.".format(name)
+                )
             raise ValueError(
                 "Policy '{}' contains an invalid section named: "
                 "{}".format(name, invalid_sections.pop())
